@@ -102,6 +102,25 @@ def drop_report(REG, c):
     return {'log_calls_dropped': logs, 'annotations_dropped': ann, 'docstring_dropped': doc, 'lines': (node.end_lineno - node.lineno + 1)}
 
 
+def _in_region(finding, failure):
+    """does this failing input belong to the recorded finding?  A finding names a committed region predicate
+    (bounded.registry.REGIONS) and/or a literal substring; a failure outside it is a new VIOLATION."""
+    from bounded.registry import REGIONS
+
+    if finding.get('region'):
+        fn = REGIONS.get(finding['region'])
+        if fn is None:
+            return False
+        try:
+            if not fn(failure):
+                return False
+        except Exception:
+            return False
+    if finding.get('match') is not None and finding['match'] not in json.dumps(failure, default=str):
+        return False
+    return bool(finding.get('region') or finding.get('match') is not None)
+
+
 def load_known():
     p = os.path.join(ROOT, 'known_findings.json')
     if not os.path.exists(p):
@@ -259,11 +278,15 @@ def main(argv=None):
         fails = res.pop('failures', [])
         res['failures'] = len(fails)
         bounded_out.append(res)
-        for k, fl in enumerate(fails[:5]):
-            kf = [f for f in known['findings'] if f.get('property') == pid and f.get('bounded') == name and (f.get('match') is None or f['match'] in json.dumps(fl, default=str))]
+        shown = 0
+        for k, fl in enumerate(fails):
+            kf = [f for f in known['findings'] if f.get('property') == pid and f.get('bounded') == name and _in_region(f, fl)]
             if kf:
                 known_lines.append(f'KNOWN-FINDING: property={pid} {kf[0]["what"]}')
                 continue
+            if shown >= 5:
+                continue
+            shown += 1
             path = os.path.join(ROOT, 'replays', f'{pid}-bounded-{name}-{k}.json')
             write_replay(path, {'property': pid, 'bounded': name, 'failure': fl})
             violations.append((path, True, f'bounded:{name}', fl.get('what', '')))
